@@ -94,14 +94,23 @@ PROPS.update({
                    "node_before / node_after (text cutting), marks(), block_range, node_at, nodes_between, text_between (UTF-16), range_has_mark against an oracle tree for every position / pair of positions; that the path-derived values are the flat-token values.",
                    assumptions=("A1", "A2", "A4", "A5", "A6", "A7", "A10", "Z3", "PYVC"), min_obligations=220, shards={"ResolvedPos.resolve": 8},
                    bounded_only=["node_before / node_after / marks() / block_range", "nodes_between / text_between / range_has_mark / node_at", "token-level reading of the path (oracle)"]),
-    "C11": _bounded("C11", "c11", "7 replace-family operations x ranges x payload-valid slices: totality (2 s alarm), oracle validity, prefix/suffix preservation, no invented content."),
+    "C11": _hybrid("C11", "c11", ["contracts.model_pos"],
+                   "three helpers the replace family relies on: covered_depths (range expansion of replace_range / delete_range: only depths free of isolating nodes on both sides, within the common depth), "
+                   "NodeType.allowed_marks (exactly the marks the target parent allows, in order: what place_nodes / clear_incompatible use to strip marks), Mark.add_to_set.",
+                   "7 replace-family operations x ranges x payload-valid slices: totality (2 s alarm), oracle validity, prefix/suffix preservation, no invented content. The Fitter (fit / find_fittable / place_nodes / close_frontier_node ...) mutates its own frontier through helpers and has no termination measure (see known finding): outside the proved set.",
+                   min_obligations=90, shards={"Mark.add_to_set": 4, "NodeType.allowed_marks": 2},
+                   bounded_only=["Fitter", "replace_range / delete_range / insert / replace_with control flow", "validity and content preservation of the result"]),
     "C12": _hybrid("C12", "c12", ["contracts.model_pos"],
                    "can_cut (== both partial replacements are accepted by the parent's content automaton), lift_target (result in range, only through non-isolating ancestors), Fragment / Node.maybe_child (None exactly outside 0..n-1: what join_point relies on at index 0), "
                    "Node.can_replace / can_replace_with / can_append (== automaton run, from C07).",
                    "helper approvals (split, join, join_point, lift, wrap, insert_point, drop_point) followed by the edit: must succeed, stay valid, keep the leaf sequence.",
                    assumptions=("A1", "A4", "A5", "A6", "A10", "Z3", "PYVC"), min_obligations=150, shards={"lift_target": 2, "Node.can_replace": 2},
                    bounded_only=["approve => perform succeeds (whole-document property)", "can_split, can_join, join_point, find_wrapping, insert_point, drop_point bodies"]),
-    "C13": _bounded("C13", "c13", "add/remove mark over ranges and node-level edits against a per-token mark oracle incl. an exclusion-variant schema."),
+    "C13": _hybrid("C13", "c13", ["contracts.transform_steps"],
+                   "the per-node mark-set transformation the mark steps apply: Mark.add_to_set is exactly the documented rule (unchanged if an equal mark is present or a present mark excludes the new one, otherwise the excluded marks removed and the mark inserted at its rank), "
+                   "remove_from_set / is_in_set / MarkType.is_in_set / remove_from_set are the set operations over (type, attributes), NodeType.allows_mark_type is the parent's permission table; AddMarkStep / RemoveMarkStep.map keep the mark and map the range ends with the documented sides.",
+                   "that add_mark / remove_mark / node-mark / attribute / retyping operations change exactly the addressed inline content (per-token mark oracle incl. an exclusion-variant schema): AddMarkStep.apply / RemoveMarkStep.apply (map_fragment closures) and the step planning in Transform.add_mark / remove_mark are outside the proved set.",
+                   min_obligations=85, bounded_only=["AddMarkStep.apply / RemoveMarkStep.apply (closures)", "Transform.add_mark / remove_mark planning", "set_block_type / set_node_markup / node-level edits"]),
     "C14": dict(
         sidecars=["contracts.model_mark"],
         driver="c14",
